@@ -20,6 +20,8 @@ Clauses (names of DESIGN.md section 3, C08)
   C08.sweep         _improve_one_ranking: r stays dense (ids exactly 0..max), is a local optimum w.r.t. all
                     single-element moves (threshold 0.001), returned delta == score(after) - score(before) within
                     1e-9 and <= 0; compiled and pure-Python executions agree
+  C08.terminates    a case (normally well under 1 s) that gives no answer within 90 s; every case runs in a forked child
+                    because a spinning numba kernel cannot be interrupted by the runner's SIGALRM
 Documented refusals of a starter (PickAPerm / Borda on incomplete data under a scheme they do not handle) are skipped.
 """
 import random
@@ -382,7 +384,84 @@ def check_kernel(case):
             "sample": {"kind": "kernel", "seed": case["seed"]}}
 
 
+# ---------------------------------------------------------------------------------------------------------------
+# A kernel that no longer terminates spins inside numba machine code, where the runner's SIGALRM handler cannot run.
+# Every case is therefore executed in a forked child that the worker can kill.
+_GUARD = {"timeouts": 0}
+FIRST_LIMIT, NEXT_LIMIT, MAX_TIMEOUTS = 90, 15, 2
+
+
+def guarded(fn, case, prop, site):
+    """Run fn(case) in a forked child; no answer within the limit -> a `<prop>.terminates` fail.  After MAX_TIMEOUTS
+    timeouts in one worker process the remaining cases of that worker are skipped (a violation is already reported)."""
+    import os
+    import pickle
+    import select
+    import signal
+    import time
+    import traceback
+    if _GUARD["timeouts"] >= MAX_TIMEOUTS:
+        return {"fails": [], "key": None, "evals": 0, "sample": {"skipped": "after %d timeouts" % MAX_TIMEOUTS}}
+    limit = FIRST_LIMIT if _GUARD["timeouts"] == 0 else NEXT_LIMIT
+    rfd, wfd = os.pipe()
+    pid = os.fork()
+    if pid == 0:
+        code = 0
+        try:
+            os.close(rfd)
+            try:
+                out = ("ok", fn(case))
+            except BaseException:
+                out = ("exc", traceback.format_exc())
+            data = pickle.dumps(out)
+            with os.fdopen(wfd, "wb") as f:
+                f.write(data)
+        except BaseException:
+            code = 1
+        finally:
+            os._exit(code)
+    os.close(wfd)
+    buf = []
+    timed_out = False
+    deadline = time.time() + limit
+    try:
+        while True:
+            left = deadline - time.time()
+            if left <= 0:
+                timed_out = True
+                break
+            ready, _, _ = select.select([rfd], [], [], left)
+            if not ready:
+                timed_out = True
+                break
+            chunk = os.read(rfd, 1 << 16)
+            if not chunk:
+                break
+            buf.append(chunk)
+    finally:
+        os.close(rfd)
+        try:
+            os.kill(pid, signal.SIGKILL)
+        except ProcessLookupError:
+            pass
+        try:
+            os.waitpid(pid, 0)
+        except ChildProcessError:
+            pass
+    if timed_out:
+        _GUARD["timeouts"] += 1
+        return {"fails": [{"clause": prop + ".terminates", "site": site,
+                           "detail": "no answer within %d s (the case normally takes well under 1 s)" % limit}],
+                "key": None, "evals": 1}
+    if not buf:
+        raise RuntimeError("guarded child died without an answer")
+    kind, out = pickle.loads(b"".join(buf))
+    if kind == "exc":
+        raise RuntimeError("harness exception in guarded child:\n" + out)
+    return out
+
+
 def check_case(case):
     if case["kind"] == "api":
-        return check_api(case)
-    return check_kernel(case)
+        return guarded(check_api, case, ID, "BioConsert.compute_consensus_rankings does not return")
+    return guarded(check_kernel, case, ID, "_improve_one_ranking does not return (called directly)")
